@@ -27,7 +27,7 @@ ASSUMPTIONS = ['curve points are compared with 10^model_fluxes mJy x nu in erg/c
                'apertures are generated with >= 2 distinct values so that "smallest" and "largest" differ',
                'aperture radii are kept below the largest tabulated aperture by >= 2 % (the 0.999 clamp of interpolate_variable is outside the statement)']
 PROBES = ['mode_interp', 'mode_largest', 'mode_largest+smallest', 'mode_all', 'multi_aperture', 'single_aperture', 'channel_path', 'channel_obj',
-          'consumer_before_plot', 'plot_memmap_off', 'f4_storage', 'fewer_models_than_requested', 'best_fit_last_checked', 'wavelengths_in_other_unit', 'prelude_epoch', 'filters_not_in_wavelength_order', 'aperture_beyond_table_judged', 'finely_sampled_sed', 'every_tabulated_wavelength_fitted']
+          'consumer_before_plot', 'plot_memmap_off', 'f4_storage', 'fewer_models_than_requested', 'best_fit_last_checked', 'wavelengths_in_other_unit', 'prelude_epoch', 'filters_not_in_wavelength_order', 'aperture_beyond_table_judged', 'finely_sampled_sed', 'every_tabulated_wavelength_fitted', 'earlier_plot_same_apertures_other_wavelengths']
 
 
 def budgets(tier):
@@ -55,7 +55,8 @@ def generate(rng, tier, idx):
           # the unit in which the user gives the monochromatic wavelengths (any length unit is legal)
           'wav_unit': rng.choice(['micron', 'micron', 'Angstrom', 'nm', 'mm', 'cm', 'm']),
           # apertures that, at the fitted distance, reach beyond the largest tabulated aperture (the fitter then uses the largest one)
-          'beyond': rng.random() < 0.3}
+          'beyond': rng.random() < 0.3,
+          'single_distance': rng.random() < 0.25, 'earlier_plot': rng.random() < 0.3}
     steps = []
     for _ in range(rng.randint(1, 4)):
         steps.append({'op': 'plot', 'mode': rng.choice(MODES), 'nsel': rng.randint(1, 5), 'channel': rng.choice(['path', 'obj']),
@@ -125,7 +126,7 @@ def _execute(sc, sim, out):
     trng = random.Random(sc['theta_seed'])
     if apdep:
         dmin = sc['dmin']
-        dmax = dmin * sc['dspan']
+        dmax = dmin * (1.0 if sc.get('single_distance') else sc['dspan'])
         lo_t = W.aps[0] * 1.02 / (dmin * 1000.)
         hi_t = W.aps[-1] * (2.5 if sc.get('beyond') else 0.98) / (dmax * 1000.)
         if lo_t >= hi_t:
@@ -154,6 +155,20 @@ def _execute(sc, sim, out):
     wunit = u.Unit(sc.get('wav_unit', 'micron'))
     if sc.get('wav_unit', 'micron') != 'micron':
         out.probe('wavelengths_in_other_unit')
+    if sc.get('earlier_plot') and nf > 1:
+        # the analyst looked at the same source before, fitted with the same apertures at the same distance(s) but with
+        # the wavelengths in another order, and plotted that result in the same process
+        fw0 = np.roll(fw, 1)
+        r0 = pipe.call(pipe.Fitter, [x * u.micron for x in fw0], theta * u.arcsec, d, extinction_law=W.extinction(), av_range=list(sc['av_range']),
+                       distance_range=[dmin, dmax] * u.kpc, use_memmap=False)
+        if r0[0] == 'ok':
+            s0 = gen_source(random.Random(sc['source_seed']), nf, 'earlier', flags=(1,), min_fit=1)
+            r0 = pipe.call(r0[1].fit, make_source(s0))
+            if r0[0] == 'ok':
+                for m0 in ('interp', 'all'):
+                    pipe.call(plot, r0[1], select_format=('N', 3), sed_type=m0)
+                out.probe('earlier_plot_same_apertures_other_wavelengths')
+                sim.fired('earlier_plot')
     r = pipe.call(pipe.Fitter, [(x * u.micron).to(wunit) for x in fw], theta * u.arcsec, d, extinction_law=W.extinction(), av_range=list(sc['av_range']),
                   distance_range=[dmin, dmax] * u.kpc, use_memmap=sc['fit_memmap'])
     if r[0] != 'ok':
@@ -292,6 +307,8 @@ def _execute(sc, sim, out):
 
 
 def lowerings(sc, viol=None):
+    if sc.get('earlier_plot'):
+        yield dict(sc, earlier_plot=False)
     if sc.get('prelude'):
         yield dict(sc, prelude=None)
     for i, st in enumerate(sc['steps']):
